@@ -50,6 +50,10 @@ let stage_of_token digits t =
    byte + 256 * enable, the model meta word is txid + 8 * error; the machines never look inside a digit or
    a meta word, so this is the statement "enables and error travel with their byte / beat" *)
 let be_mode = ref false
+(* sig=rs|s: streams without Valid; the E lines carry SOP in the first field, the model derives valid (StreamRs.v: rsRun)
+   and the output sop is the framing of the model's own output transfers (first beat after an eop beat / reset) *)
+let rs_mode = ref false
+let rs_lines : (string * rscyc) list ref = ref []
 
 let flush_case oc desc lines =
   (* lines: reversed list of (lhs, cyc) *)
@@ -72,10 +76,25 @@ let flush_case oc desc lines =
         end
         else Printf.fprintf oc "%s | %s 0 %s\n" lhs (b2s e.e_rin) (if !be_mode then "- - - - -" else "- - -")) lines evs
 
+let flush_rs oc desc =
+  let lines = List.rev !rs_lines in
+  rs_lines := [];
+  match desc with
+  | None -> ()
+  | Some d ->
+    let evs = rsRun d (List.map snd lines) in
+    let first = ref true in
+    List.iter2 (fun (lhs, _) e ->
+        if e.e_out.bvalid then begin
+          Printf.fprintf oc "%s | %s 1 %s %s %d %s\n" lhs (b2s e.e_rin) (string_of_digits e.e_out.bdata)
+            (b2s e.e_out.beop) (int_of_n e.e_out.bmeta) (b2s !first);
+          if e.e_rout then first := e.e_out.beop
+        end else Printf.fprintf oc "%s | %s 0 - - - -\n" lhs (b2s e.e_rin)) lines evs
+
 let () =
   let ic = open_in Sys.argv.(1) and oc = open_out Sys.argv.(2) in
   let desc = ref None and lines = ref [] and nomodel = ref false in
-  let finish () = flush_case oc !desc !lines; desc := None; lines := [] in
+  let finish () = (if !rs_mode then flush_rs oc !desc else flush_case oc !desc !lines); desc := None; lines := [] in
   (try
      while true do
        let line = input_line ic in
@@ -85,7 +104,8 @@ let () =
        | "C" :: _id :: rest ->
          finish ();
          let chain = ref "-" and digits = ref 1 and eb = ref false in
-         be_mode := false;
+         be_mode := false; rs_mode := false;
+         List.iter (fun t -> match kv t with Some ("sig", v) -> rs_mode := (v = "rs" || v = "s") | _ -> ()) rest;
          List.iter (fun t -> match kv t with Some ("chain", v) -> chain := v | Some ("min", v) -> digits := int_of_string v
                                             | Some ("eb", v) -> eb := (v = "1") | Some ("be", v) -> be_mode := (v = "1") | _ -> ()) rest;
          (try
@@ -103,6 +123,10 @@ let () =
                    c_in = { bvalid = (v = "1"); bdata = syms; beop = (e = "1"); bmeta = n_of_int (int_of_string m + 8 * int_of_string err) };
                    c_rdy = (r = "1") } in
          lines := (lhs, c) :: !lines
+       | [ "E"; v; d; e; m; r; _ctl ] when !rs_mode && not !nomodel ->
+         let c = { r_ctl = []; r_sop = (v = "1"); r_data = digits_of_string d; r_eop = (e = "1");
+                   r_meta = n_of_int (int_of_string m); r_rdy = (r = "1") } in
+         rs_lines := (lhs, c) :: !rs_lines
        | [ "E"; v; d; e; m; r; ctl ] ->
          if !nomodel then output_string oc (line ^ "\n")
          else begin
